@@ -326,6 +326,7 @@ class CSSSerializer:
         # TODO:
         self._selectors = []  # holds SelectorList
         self._selectorlevel = 0  # current specificity nesting level
+        self._insheet = False  # nesting is a matter of a whole sheet
 
     def _atkeyword(self, rule):
         "returns default or source atkeyword depending on prefs"
@@ -394,18 +395,23 @@ class CSSSerializer:
         self._selectorlevel = 0
         useduris = stylesheet._getUsedURIs()
         out = []
-        for rule in stylesheet.cssRules:
-            if (
-                self.prefs.keepUsedNamespaceRulesOnly
-                and rule.NAMESPACE_RULE == rule.type
-                and rule.namespaceURI not in useduris
-                and (rule.prefix or None not in useduris)
-            ):
-                continue
+        # (a rule which is serialized on its own is not nested)
+        self._insheet = True
+        try:
+            for rule in stylesheet.cssRules:
+                if (
+                    self.prefs.keepUsedNamespaceRulesOnly
+                    and rule.NAMESPACE_RULE == rule.type
+                    and rule.namespaceURI not in useduris
+                    and (rule.prefix or None not in useduris)
+                ):
+                    continue
 
-            cssText = rule.cssText
-            if cssText:
-                out.append(cssText)
+                cssText = rule.cssText
+                if cssText:
+                    out.append(cssText)
+        finally:
+            self._insheet = False
         text = self._linenumnbers(self.prefs.lineSeparator.join(out))
 
         # get encoding of sheet, defaults to UTF-8
@@ -764,7 +770,7 @@ class CSSSerializer:
 
         # prepare for element nested rules
         # TODO: sort selectors!
-        if self.prefs.indentSpecificities:
+        if self.prefs.indentSpecificities and self._insheet:
             # subselectorlist?
             elements = {s.element for s in rule.selectorList}
             specitivities = [s.specificity for s in rule.selectorList]
